@@ -250,7 +250,9 @@ Print Assumptions parse_tops_hoists.
 
 Theorem parse_program_outcome :
   forall (autovars : list (text * autovar)) (switches : list (text * text)) (env_errors : bool)
-    (parse_format : toks -> res (token * text * text * toks)) (ts : list token) (st : pstate),
+    (parse_format : toks -> res (token * text * text * toks)),
+  env_errors = true ->
+  forall (ts : list token) (st : pstate),
   parse_tops autovars switches env_errors parse_format (5 * length ts + 4) pstate0 ts = Ok st ->
   let texts := htexts (ph st) ++ ptexts st in
   let tops := ptops st ++ hmovs (ph st) in
@@ -319,7 +321,9 @@ Print Assumptions parse_program_outcome.
 
 Theorem program_hoisting :
   forall (autovars : list (text * autovar)) (switches : list (text * text)) (env_errors : bool)
-    (parse_format : toks -> res (token * text * text * toks)) (ts : toks) (p : program),
+    (parse_format : toks -> res (token * text * text * toks)),
+  env_errors = true ->
+  forall (ts : toks) (p : program),
   parse_program autovars switches env_errors parse_format ts = Ok p ->
   exists (st : pstate) (imps : list impdata) (pss : list (list patch)),
     parse_tops autovars switches env_errors parse_format (5 * length ts + 4) pstate0 ts = Ok st /\
@@ -333,7 +337,9 @@ Print Assumptions program_hoisting.
 
 Theorem program_text_label_defined_once :
   forall (autovars : list (text * autovar)) (switches : list (text * text)) (env_errors : bool)
-    (parse_format : toks -> res (token * text * text * toks)) (ts : toks) (p : program) (st : pstate) (v ty l : text),
+    (parse_format : toks -> res (token * text * text * toks)),
+  env_errors = true ->
+  forall (ts : toks) (p : program) (st : pstate) (v ty l : text),
   parse_program autovars switches env_errors parse_format ts = Ok p ->
   parse_tops autovars switches env_errors parse_format (5 * length ts + 4) pstate0 ts = Ok st ->
   find_text (hset (ph st)) v ty = Some l ->
@@ -346,7 +352,9 @@ Print Assumptions program_text_label_defined_once.
 
 Theorem program_mov_label_defined_once :
   forall (autovars : list (text * autovar)) (switches : list (text * text)) (env_errors : bool)
-    (parse_format : toks -> res (token * text * text * toks)) (ts : toks) (p : program) (st : pstate) (k l : text),
+    (parse_format : toks -> res (token * text * text * toks)),
+  env_errors = true ->
+  forall (ts : toks) (p : program) (st : pstate) (k l : text),
   parse_program autovars switches env_errors parse_format ts = Ok p ->
   parse_tops autovars switches env_errors parse_format (5 * length ts + 4) pstate0 ts = Ok st ->
   assoc (hmset (ph st)) k = Some l ->
@@ -361,7 +369,9 @@ Print Assumptions program_mov_label_defined_once.
 
 Theorem program_text_label_determines_content :
   forall (autovars : list (text * autovar)) (switches : list (text * text)) (env_errors : bool)
-    (parse_format : toks -> res (token * text * text * toks)) (ts : toks) (p : program) (st : pstate) (v ty v' ty' l : text),
+    (parse_format : toks -> res (token * text * text * toks)),
+  env_errors = true ->
+  forall (ts : toks) (p : program) (st : pstate) (v ty v' ty' l : text),
   parse_program autovars switches env_errors parse_format ts = Ok p ->
   parse_tops autovars switches env_errors parse_format (5 * length ts + 4) pstate0 ts = Ok st ->
   In (v, ty, l) (hset (ph st)) -> In (v', ty', l) (hset (ph st)) -> v = v' /\ ty = ty'.
@@ -370,7 +380,9 @@ Print Assumptions program_text_label_determines_content.
 
 Theorem program_mov_label_determines_content :
   forall (autovars : list (text * autovar)) (switches : list (text * text)) (env_errors : bool)
-    (parse_format : toks -> res (token * text * text * toks)) (ts : toks) (p : program) (st : pstate) (k k' l : text),
+    (parse_format : toks -> res (token * text * text * toks)),
+  env_errors = true ->
+  forall (ts : toks) (p : program) (st : pstate) (k k' l : text),
   parse_program autovars switches env_errors parse_format ts = Ok p ->
   parse_tops autovars switches env_errors parse_format (5 * length ts + 4) pstate0 ts = Ok st ->
   In (k, l) (hmset (ph st)) -> In (k', l) (hmset (ph st)) -> k = k'.
@@ -379,7 +391,9 @@ Print Assumptions program_mov_label_determines_content.
 
 Theorem text_name_clash_is_error :
   forall (autovars : list (text * autovar)) (switches : list (text * text)) (env_errors : bool)
-    (parse_format : toks -> res (token * text * text * toks)) (ts : list token) (st : pstate) (x y : textdef),
+    (parse_format : toks -> res (token * text * text * toks)),
+  env_errors = true ->
+  forall (ts : list token) (st : pstate) (x y : textdef),
   parse_tops autovars switches env_errors parse_format (5 * length ts + 4) pstate0 ts = Ok st ->
   In x (htexts (ph st)) ->
   In y (ptexts st) ->
@@ -413,8 +427,9 @@ Print Assumptions text_name_clash_is_error.
 
 Theorem mov_name_clash_is_error :
   forall (autovars : list (text * autovar)) (switches : list (text * text)) (env_errors : bool)
-    (parse_format : toks -> res (token * text * text * toks)) (ts : list token) (st : pstate) (n : text) (g : bool) 
-    (tk : token) (steps : list token) (g' : bool) (tk' : token) (steps' : list token),
+    (parse_format : toks -> res (token * text * text * toks)),
+  env_errors = true ->
+  forall (ts : list token) (st : pstate) (n : text) (g : bool) (tk : token) (steps : list token) (g' : bool) (tk' : token) (steps' : list token),
   parse_tops autovars switches env_errors parse_format (5 * length ts + 4) pstate0 ts = Ok st ->
   In (TMovement n g tk steps) (ptops st) ->
   In (TMovement n g' tk' steps') (hmovs (ph st)) -> exists e : perr, parse_program autovars switches env_errors parse_format ts = Err e.
